@@ -12,6 +12,7 @@ import (
 	"context"
 	"fmt"
 	"os"
+	"strings"
 	"time"
 
 	"github.com/gopcua/opcua/ua"
@@ -361,9 +362,17 @@ func runC07() {
 		}
 	}
 	deaths := evid.Sharded(r, 0, func(s evid.ShardInfo, w *evid.Run) {
+		// Every case that ends in the hang watchdog costs a minute. On a tree that breaks the property that can be
+		// thousands of cases; once a worker has seen a few such cases the verdict is clear and the rest of its
+		// share is skipped (reported as a cap, not silently).
+		slow := 0
 		for i, j := range jobs {
 			if !s.Mine(int64(i)) {
 				continue
+			}
+			if slow >= 6 {
+				w.Capped("a worker stopped after 6 failing cases (3 if they ended in the 60 s hang watchdog); the violations found so far are reported")
+				break
 			}
 			cfg := pairCfg{Policy: j.cell.Policy, Mode: j.cell.Mode, Bits: j.cell.Bits, ChunkSize: j.n}
 			evid.Publish("pair " + cfg.String())
@@ -382,11 +391,17 @@ func runC07() {
 					res := c07Message(p, dir, class, bases)
 					w.Eval(fmt.Sprintf("%s/%d/%s", cfg, dir, class))
 					if res.Sig != "" {
+						// a failing case costs seconds to minutes (hang watchdog, tearing the pair down, a new handshake)
+						if strings.Contains(res.Sig, "watchdog") {
+							slow += 2
+						} else {
+							slow++
+						}
 						w.Violate(res.Sig, fmt.Sprintf("%s; case %+v; wire chunks %v flags %q", res.Detail, c, res.Frames, res.Flags), c)
 						w.Outcome("violation")
 						// the pair may be out of step now: take a fresh one
 						p.close()
-						if p, err = openPair(cfg); err != nil {
+						if p, err = openPair(cfg); err != nil || slow >= 6 {
 							break
 						}
 						continue
